@@ -5,6 +5,7 @@ import (
 	"go/constant"
 	"go/types"
 	"math/big"
+	"os"
 	"strings"
 
 	"golang.org/x/tools/go/ssa"
@@ -23,6 +24,8 @@ type SpecEnv struct {
 	specPkg  string
 	sumCtx   *sumCtx
 	sumDepth int
+	inHint   bool
+	at       *ssa.BasicBlock // resolve source variables as visible at the end of this block
 }
 
 func (fr *Frame) newEnv() *SpecEnv {
@@ -50,6 +53,9 @@ func (e *SpecEnv) force(v *SVal) *SVal {
 	if v.LV {
 		r := e.fr.readLocIn(e.heap, v.Loc)
 		r.T = v.T
+		if e.sumCtx != nil {
+			r = e.sumCtx.lift(e, r)
+		}
 		return r
 	}
 	return v
@@ -67,6 +73,14 @@ func boolVal(t string) *SVal { return leaf(types.Typ[types.Bool], t) }
 func intVal(t string) *SVal  { return leaf(specIntType, t) }
 
 func (e *SpecEnv) eval(n *Node) *SVal {
+	v := e.eval0(n)
+	if e.sumCtx != nil && n.Op != "int" {
+		v = e.sumCtx.lift(e, v)
+	}
+	return v
+}
+
+func (e *SpecEnv) eval0(n *Node) *SVal {
 	switch n.Op {
 	case "int":
 		v, ok := new(big.Int).SetString(n.Name, 0)
@@ -262,7 +276,12 @@ func (e *SpecEnv) ident(name string) *SVal {
 		return v
 	}
 	if e.header != nil {
-		if v := fr.lookupDebug(name, e.header); v != nil {
+		if v := fr.lookupDebug(name, e.header, false); v != nil {
+			return v
+		}
+	}
+	if e.at != nil {
+		if v := fr.lookupDebug(name, e.at, true); v != nil {
 			return v
 		}
 	}
@@ -277,16 +296,19 @@ func (e *SpecEnv) ident(name string) *SVal {
 
 // lookupDebug finds the value of source variable `name` visible at block b: the latest
 // DebugRef in b's dominators.
-func (fr *Frame) lookupDebug(name string, b *ssa.BasicBlock) *SVal {
+func (fr *Frame) lookupDebug(name string, b *ssa.BasicBlock, inclusive bool) *SVal {
 	for d := b; d != nil; d = d.Idom() {
 		refs := fr.debug[d]
 		for k := len(refs) - 1; k >= 0; k-- {
 			r := refs[k]
-			if d == b {
+			if d == b && !inclusive {
 				// only phis of the header itself are visible at the cut point
 				continue
 			}
 			obj := r.Object()
+			if os.Getenv("GOVC_DEBUG") == "2" {
+				fmt.Fprintf(os.Stderr, "  debugref in b%d: %v obj=%v\n", d.Index, r, obj)
+			}
 			if obj == nil || obj.Name() != name {
 				continue
 			}
@@ -453,9 +475,16 @@ func (e *SpecEnv) index(v *SVal, idx *SVal) *SVal {
 		s := e.force(v)
 		et := elemType(s.T)
 		arr, off := s.F[0].Term, s.F[1].Term
-		if c := e.sumCtx; c != nil && strings.Contains(idx.Term, c.ph) && !strings.Contains(arr, c.ph) && !strings.Contains(off, c.ph) {
+		if c := e.sumCtx; c != nil && strings.Contains(idx.Term, c.ph) {
 			// lambda-lift the slice out of the sum body (see sum.go)
-			arr, off = c.param(arr), c.param(off)
+			// (a slice reached through an already lifted pointer is re-lifted at the slice
+			// itself, so that the same spec sum over a value and over a pointer coincide)
+			if !strings.Contains(arr, c.ph) {
+				arr = c.param(c.unlift(arr))
+			}
+			if _, lit := isIntLit(off); !lit && !strings.Contains(off, c.ph) {
+				off = c.param(c.unlift(off))
+			}
 		}
 		return lv(&Loc{Kind: LElem, Base: arr, Idx: sAdd(off, idx.Term), Root: et, T: et})
 	case KArray:
@@ -620,6 +649,18 @@ func (e *SpecEnv) callExpr(n *Node) *SVal {
 		return intVal(v.F[1].Term)
 	case "forall", "exists":
 		return e.quant(name, args)
+	case "forallstr", "existsstr":
+		// quantification over strings: forallstr(s, body)
+		if len(args) != 2 || args[0].Op != "id" {
+			sfail("%s(s, body)", name)
+		}
+		x.nFrames++
+		bv := sym(fmt.Sprintf("%s!q%d", args[0].Name, x.nFrames))
+		b := fr.evalBool(args[1], e.with(args[0].Name, leaf(types.Typ[types.String], bv)))
+		if name == "forallstr" {
+			return boolVal("(forall ((" + bv + " Str)) " + b + ")")
+		}
+		return boolVal("(exists ((" + bv + " Str)) " + b + ")")
 	case "sum":
 		return e.sum(args)
 	case "min", "max":
@@ -677,6 +718,18 @@ func (e *SpecEnv) callExpr(n *Node) *SVal {
 			t = v.F[0].Term
 		}
 		return boolVal(sLe(t, x.heapGet(e.heap, allocName, "Int")))
+	case "sumext":
+		// theorem: pointwise equal terms have equal sums
+		if len(args) != 5 || args[0].Op != "id" {
+			sfail("sumext(k, lo, hi, term1, term2)")
+		}
+		if !e.inHint {
+			sfail("sumext is only allowed in a hint")
+		}
+		s1 := e.sum([]*Node{args[0], args[1], args[2], args[3]})
+		s2 := e.sum([]*Node{args[0], args[1], args[2], args[4]})
+		pw := e.quant("forall", []*Node{args[0], args[1], args[2], {Op: "==", Args: []*Node{args[3], args[4]}}})
+		return boolVal(sImp(pw.Term, sEq(s1.Term, s2.Term)))
 	case "sameslice":
 		need(2)
 		a := e.force(e.eval(args[0]))
@@ -717,6 +770,9 @@ func (e *SpecEnv) callExpr(n *Node) *SVal {
 }
 
 func (e *SpecEnv) applySpec(s *SpecFn, args []*Node) *SVal {
+	if s.Opaque {
+		return e.applyOpaque(s, args)
+	}
 	if len(args) != len(s.Params) {
 		sfail("spec %s expects %d arguments", s.Name, len(s.Params))
 	}
